@@ -166,6 +166,13 @@ impl CustomAccountInterface for TimelockController {
         context_meta: Vec<OperationMeta>,
         auth_contexts: Vec<Context>,
     ) -> Result<(), Self::Error> {
+        // Every authorized context must be backed by exactly one operation
+        // descriptor; `zip` below would otherwise silently skip (and thereby
+        // authorize) the contexts that have no descriptor.
+        if context_meta.len() != auth_contexts.len() {
+            panic_with_error!(&e, TimelockError::Unauthorized)
+        }
+
         for (context, meta) in auth_contexts.iter().zip(context_meta) {
             match context.clone() {
                 Context::Contract(ContractContext { contract, fn_name, args }) => {
